@@ -484,6 +484,7 @@ SPEC_FUNS.update({
     "props_accepts": (["V", "S"], "B", "props_accepts"),
     "outcome_of": (["V", "V"], "V", "outcome_of"),
     "d6_multiple": (["V", "V"], "B", "d6_multiple"),
+    "lit_of": (["V"], "V", "lit_of"),
     "dflt": (["V"], "V", "dflt"), "ann": (["V"], "S", "ann"), "item_anns": (["V"], "V", "item_anns"), "prop_for": (["V", "S"], "V", "prop_for"),
     "vrejects": (["V", "V"], "B", "vrejects"), "validators_of": (["V"], "V", "validators_of"),
     "csem": (["V", "V"], "B", "csem"), "cbuild": (["V", "V"], "V", "cbuild"), "accepts_all": (["V", "V"], "B", "accepts_all"),
